@@ -110,6 +110,43 @@ def stage_trace(chk, bins, scenario, trace_module, invariants=(), variant="dbg-n
 
 
 # ---------------------------------------------------------------------------
+# The lifecycle machine (tla/SDSLife.tla): one bit sequence through every public route
+
+LIFE_TAIL = "INIT Init\nNEXT Next\nVIEW View\nINVARIANT Inv\nCHECK_DEADLOCK FALSE\n"
+LIFE_ALL_OPS = '{"mut", "to", "enable", "reload", "file", "writer", "mapper", "clone"}'
+LIFE_ALL_KINDS = '{"raw", "int1", "plain", "sparse", "rl"}'
+
+
+def stage_life(chk, bins, label, own, ops=LIFE_ALL_OPS, kinds=LIFE_ALL_KINDS, initkinds='{"raw", "int1"}', maxlen=3, scales=(1, 3, 64, 65),
+               big_scales=(), big_stride=7, walks=0, walk_depth=12, variant="dbg-native"):
+    """Cover of every (object state, class of the previous call, call) of the lifecycle machine, replayed at every scale;
+    `own` lists the step classes this property answers for (a disagreement at another step belongs to another property's check)."""
+    if not getattr(chk, "_tmpdir", None):
+        chk.scratch_tmpdir()
+    consts = {"MaxLen": maxlen, "Ops": ops, "Kinds": kinds, "InitKinds": initkinds, "Memory": 1, "MaxDepth": 99}
+    path, res = vlib.generate_cases(chk.work, "GenLife_" + label, "GenLife", cfg_consts(consts) + LIFE_TAIL, timeout=900)
+    chk.add_tlc(res, "GenLife %s: cover of every (reachable (kind, bits <= %d, supports), class of the previous call, call) of the lifecycle machine "
+                     "(invariants LifeOK, Content checked)" % (label, maxlen), {"behaviours": len(res.replay_lines)})
+    st = "replay lifecycle behaviours (%s) at scales %s on %s: after every call kind, bits, supports, == / same bytes / same answers as the object built directly from the state" % (label, list(scales), variant)
+    out = chk.run_harness(bins[variant], ["replay", "--kind", "life", "--cases", path, "--scales", ",".join(str(k) for k in scales), "--own", ",".join(own)], st)
+    if out:
+        chk.add_replay(out, st)
+    if big_scales:
+        st = "replay every %dth lifecycle behaviour (%s) at scales %s (rank blocks, select superblocks)" % (big_stride, label, list(big_scales))
+        out = chk.run_harness(bins[variant], ["replay", "--kind", "life", "--cases", path, "--scales", ",".join(str(k) for k in big_scales), "--own", ",".join(own), "--stride", str(big_stride)], st)
+        if out:
+            chk.add_replay(out, st)
+    if walks:
+        consts["MaxDepth"] = walk_depth
+        wpath, wres = vlib.generate_cases(chk.work, "GenLife_walk_" + label, "GenLife", cfg_consts(consts) + LIFE_TAIL, simulate="num=%d" % walks, seed=chk.seed, timeout=900)
+        chk.add_tlc(wres, "GenLife %s: %d random walks of depth %d" % (label, walks, walk_depth), {"behaviours": len(wres.replay_lines)})
+        st = "replay lifecycle random walks (%s, depth %d) at scales %s" % (label, walk_depth, list(scales))
+        out = chk.run_harness(bins[variant], ["replay", "--kind", "life", "--cases", wpath, "--scales", ",".join(str(k) for k in scales), "--own", ",".join(own), "--minsteps", str(walk_depth)], st)
+        if out:
+            chk.add_replay(out, st)
+
+
+# ---------------------------------------------------------------------------
 
 def stage_mech_plainbv(chk, n):
     base = {"W": 4, "RB": 2, "SB": 4, "BL": 2, "N": n, "MaskLast": "TRUE", "LongIdxBug": "FALSE", "ThrReal": "FALSE"}
@@ -166,6 +203,9 @@ def check_C01(chk):
         stage_layout_drift(chk, bins)
     # both in-word select implementations: BMI2 (native) and the portable table-driven one (generic)
     stage_gen_bv(chk, bins, ["plain"], 12 if chk.thorough else 10, FAMILY_THOROUGH if chk.thorough else FAMILY_QUICK, variants=("dbg-native", "dbg-generic"))
+    # the plain bitvector reached through the lifecycle machine: raw / width-1 integer vectors under every mutation history, then BitVector::from and enable_*
+    stage_life(chk, bins, "C01", ["to:raw>plain", "enable:plain"], ops='{"mut", "to", "enable"}', kinds='{"raw", "int1", "plain"}',
+               maxlen=4 if chk.thorough else 3, scales=(1, 3, 64, 65), big_scales=(130, 1100) if chk.thorough else (1100,), big_stride=3 if chk.thorough else 11)
     total = stage_trace(chk, bins, "plain", "TraceBV", invariants=("ObjWellFormed",), seeds=6 if chk.thorough else 1)
     chk.cov["regimes"] = total
     if not chk.violations and (total.get("long_one_hits", 0) == 0 or total.get("long_zero_hits", 0) == 0):
@@ -300,6 +340,9 @@ def check_C05(chk):
         stage_gen_vec(chk, bins, "raw", "{}", 2, 3)
         stage_gen_vec(chk, bins, "int", "{1, 7, 31, 32, 33, 63, 64}", 30, 6, simulate="num=80", label="sim")
         stage_gen_vec(chk, bins, "raw", "{}", 30, 5, simulate="num=80", label="sim")
+    # mutation histories interleaved with the routes out of and back into a raw vector (plain bitvector and back, width-1 integer vector, clone, serialize + load)
+    stage_life(chk, bins, "C05", ["mut:", "to:int1>raw", "to:plain>raw", "to:raw>raw", "clone:raw", "clone:int1"], ops='{"mut", "to", "clone", "reload"}', kinds='{"raw", "int1", "plain"}',
+               maxlen=4 if chk.thorough else 3, scales=(1, 3, 64, 65, 130), walks=400 if chk.thorough else 60, walk_depth=14)
     stage_trace(chk, bins, "vec", "TraceVec", invariants=("StateOK",), seeds=4 if chk.thorough else 1)
     return chk.finish(rule="cases = call histories of IntVector / RawVector; after every call the result, the projected content, equality and "
                            "byte-identity with a canonically built vector and count_ones are compared with the Layer A state machine; "
@@ -582,6 +625,9 @@ def check_C11(chk):
     out = chk.run_harness(bins["dbg-native"], ["replay", "--kind", "ms", "--cases", msp], st)
     if out:
         chk.add_replay(out, st)
+    # conversions at every state of the lifecycle machine: sources that were mutated, converted, given supports before
+    stage_life(chk, bins, "C11", ["to:plain>plain", "to:plain>sparse", "to:plain>rl", "to:sparse>", "to:rl>"], ops='{"mut", "to", "enable"}',
+               maxlen=3 if chk.thorough else 2, scales=(1, 3, 64, 65), big_scales=(130, 1100), big_stride=5 if chk.thorough else 13)
     chk.cov["exhaustive"] = True
     stage_trace(chk, bins, "conv", "TraceConv", seeds=2 if chk.thorough else 1)
     return chk.finish(rule="cases = (content, initial type and builder decomposition, conversion chain of length <= 3); after every conversion the "
@@ -592,6 +638,9 @@ def check_C19(chk):
     bins = vlib.build_harness(["dbg-native"])
     stage_conv(chk, bins, "supports", 4, 7 if chk.thorough else 6, family="{63, 64, 65, 511, 512, 513, 4095, 4096, 4097}")
     stage_format_nosupport(chk, bins)
+    # supports enabled, reloaded and cloned at every state of the lifecycle machine
+    stage_life(chk, bins, "C19", ["enable:", "reload:plain", "reload:sparse", "reload:rl", "file:plain", "file:sparse", "file:rl", "clone:plain", "clone:sparse", "clone:rl"],
+               ops='{"mut", "to", "enable", "reload", "file", "clone"}', maxlen=3 if chk.thorough else 2, scales=(1, 64, 65), big_scales=(130, 1100), big_stride=5 if chk.thorough else 13)
     chk.cov["exhaustive"] = True
     stage_trace(chk, bins, "conv", "TraceConv", seeds=2 if chk.thorough else 1)
     return chk.finish(rule="cases = (content, history of enable_* / serialize+load calls of depth 4 from a plain bitvector without supports): every "
@@ -651,6 +700,8 @@ def check_C06(chk):
     out = chk.run_harness(bins["dbg-native"], ["replay", "--kind", "stream", "--cases", pp], "replay size_by_params grid")
     if out:
         chk.add_replay(out, "replay size_by_params grid")
+    # serialize + load (in memory and through serialize_to / load_from) at every state of the lifecycle machine
+    stage_life(chk, bins, "C06", ["reload:", "file:"], ops='{"mut", "to", "enable", "reload", "file"}', maxlen=3 if chk.thorough else 2, scales=(1, 64, 65), big_scales=(1100,), big_stride=9)
     chk.cov["exhaustive"] = True
     stage_trace(chk, bins, "stream", "TraceStream", seeds=2 if chk.thorough else 1)
     return chk.finish(rule="cases = streams of serialized values of every Serialize type (73-value pool incl. empty instances, nested options, all 8 support "
@@ -683,6 +734,8 @@ def check_C12(chk):
     else:
         stage_gen_writer(chk, bins, "raw", "{}", "{0, 64, 65, 128}", 3, 0, "raw3")
         stage_gen_writer(chk, bins, "int", "{1, 7, 33, 64}", "{0, 1, 3, 9, 10, 64}", 0, 70, "int")
+    # the writers fed from vectors at every state of the lifecycle machine (grown, shrunk, overwritten), files loaded back
+    stage_life(chk, bins, "C12", ["writer:"], ops='{"mut", "to", "writer"}', kinds='{"raw", "int1"}', maxlen=4 if chk.thorough else 3, scales=(1, 3, 64, 65, 130), big_scales=(1100,), big_stride=5)
     chk.cov["exhaustive"] = True
     stage_trace(chk, bins, "writer", "TraceWriter", seeds=2 if chk.thorough else 1)
     return chk.finish(rule="cases = (writer kind, item width, buffer size, push sequence, ending); raw: every history of 3 pushes over bits and 0..64-bit "
@@ -704,6 +757,8 @@ def check_C13(chk):
     out = chk.run_harness(bins["dbg-native"], ["replay", "--kind", "mapped", "--cases", path], st, timeout=3000)
     if out:
         chk.add_replay(out, st)
+    # raw / integer vector mappers over files written at every state of the lifecycle machine
+    stage_life(chk, bins, "C13", ["mapper:"], ops='{"mut", "to", "mapper"}', kinds='{"raw", "int1"}', maxlen=4 if chk.thorough else 3, scales=(1, 3, 64, 65, 130), big_scales=(1100,), big_stride=5)
     chk.cov["exhaustive"] = True
     return chk.finish(rule="cases = (file made of <= 2 (3) mappable structures from a 38-value pool, view type, offset or truncation); content vs the "
                            "value, map_offset, map_len vs the sizes the format determines (so views tile the file); refusal outside the file and on "
